@@ -94,6 +94,9 @@ pub enum KeyErrorType {
     #[error("Failed to {0} key with status code: {1}")]
     KeyResponse(String, StatusCode),
 
+    #[error("Failed to parse the {0} key response; the response body is not reported as it may contain the key")]
+    ParseKeyResponse(String),
+
     #[error("Failed to join {0} and {1} with error: {2}")]
     ParseKeyUrl(String, String, InvalidUri),
 
